@@ -351,6 +351,29 @@ def rule_z6(ctx, facts):
                     if lc is not None and is_std_atomic(lc) == "load" and ("map::HashMap", "transfer_index") in receiver_field(b, lc, 0) \
                             and dominated_by_edge(b, cas.point, [F]):
                         atoms["transfer_index"] = True
+            # the same atoms from the linear facts that dominate the CAS, whatever operator / operand order / negation spelt them
+            from .affine import facts_at
+            for kind, lin, bound, blk in facts_at(b, cas.point):
+                if kind == "le":
+                    # sc <= -1
+                    if lin == sc and bound <= -1:
+                        atoms["sign"] = True
+                    # transfer_index >= 1  <=>  -ti <= -1
+                    if len(lin.symbols()) == 1:
+                        s0 = next(iter(lin.symbols()))
+                        lc = b.call_at(s0[1]) if s0[0] == "call" else None
+                        if lc is not None and is_std_atomic(lc) == "load" and ("map::HashMap", "transfer_index") in receiver_field(b, lc, 0) \
+                                and lin.coeff(s0) == -1 and bound - lin.c <= -1:
+                            atoms["transfer_index"] = True
+                elif kind == "ne":
+                    for sign in (1, -1):
+                        d = lin.scale(sign)
+                        # sc - (rs + k) != 0
+                        rest = sc - d          # = rs + k  when d = sc - rs - k
+                        if rest is not TOP and is_rs(rest, MAXR):
+                            atoms["max_resizers"] = True
+                        if rest is not TOP and is_rs(rest, 1):
+                            atoms["plus_one"] = True
             found[b.id + "@" + cas.span] = atoms
             miss = [k for k, v in atoms.items() if not v]
             ctx.inst("Z6", b, "refusals before joining", cas.span, not miss,
@@ -521,11 +544,19 @@ def rule_z9(ctx, facts):
     if N is None:
         ctx.fail_closed("Z9: length of the old table (Table::len on transfer's table parameter) not found")
         return
+    # the index may live in several locals connected by plain copies (a helper that takes it by value and hands it back)
+    Iset = {l for l in fl.copies_of(I) if tr.ty(l)["s"] == "isize"} | {I}
     arm = {}
-    for pt, f in ev.def_forms(I):
-        if f is not TOP and f == N:
-            arm[pt] = True
-    dec = {pt for pt, f in ev.def_forms(I) if f is not TOP and f == Aff({("phi", I): 1}, -1)}
+    dec = set()
+    for l in Iset:
+        for pt, f in ev.def_forms(l):
+            if f is not TOP and f == N:
+                arm[pt] = True
+            if f is not TOP and len(f.symbols()) == 1 and f.c == -1:
+                s0 = next(iter(f.symbols()))
+                if f.coeff(s0) == 1 and (s0 == ("phi", l) or (s0[0] == "phi" and s0[1] in Iset)):
+                    dec.add(pt)
+            # i' = i - 1 where i is another member of the set (single-definition temporaries are already folded by the evaluator)
 
     class Sweep(Spec):
         def __init__(self):
@@ -538,7 +569,8 @@ def rule_z9(ctx, facts):
                 return ["armed"]
             if pt in dec:
                 return ["sweeping"] if ts == "armed" else [ts]
-            if st["k"] == "assign" and not st["dst"]["proj"] and st["dst"]["local"] == I and ts == "armed":
+            if st["k"] == "assign" and not st["dst"]["proj"] and st["dst"]["local"] in Iset and ts == "armed" \
+                    and not ("use" in st["rv"] and op_root(st["rv"]["use"]) in Iset):
                 return ["elected"]
             return [ts]
 
